@@ -58,7 +58,7 @@ Ignore(U, olddef) == "fix" \in U \/ "update" \in U \/ "create" \in U \/ ~olddef
 (* In-session site state                                                   *)
 (*   kind : "undecided" or the operation that fixed it                     *)
 (*   new  : aggregated entries [k, v, ck]; ck = kind of a dict child       *)
-(*          ("-" for other sites)                                          *)
+(*          ("-" for other sites, "u" for a child that was only accessed)  *)
 (*   ev   : the snapshot() call has been evaluated in this session (only    *)
 (*          evaluated calls are known to the tool at session end)          *)
 (***************************************************************************)
@@ -119,7 +119,7 @@ Step(src, st, U, s) ==
      IF st.ev /\ src.def /\ \E j \in DOMAIN src.e : ~src.e[j].canon
      THEN [st |-> st, res |-> "UE", miss |-> 0, inc |-> 0]
      ELSE [st |-> [st EXCEPT !.ev = TRUE], res |-> "-", miss |-> 0, inc |-> 0]
-  ELSE IF st.kind # "undecided" /\ st.kind # (IF o \in {"deq", "dle", "dge"} THEN "dict" ELSE o)
+  ELSE IF st.kind # "undecided" /\ st.kind # (IF o \in {"deq", "dle", "dge", "dget"} THEN "dict" ELSE o)
        THEN [st |-> [st EXCEPT !.ev = TRUE], res |-> "TE", miss |-> 0, inc |-> 0]
   ELSE IF o \in ScalarOps THEN
      LET hasnew == st.new # <<>>
@@ -131,16 +131,23 @@ Step(src, st, U, s) ==
          r == ~od \/ s.x \in Rng(ov)
      IN [st |-> [kind |-> o, new |-> n, ev |-> TRUE], res |-> B2S(IF Ignore(U, od) THEN TRUE ELSE r),
          miss |-> IF od THEN 0 ELSE 1, inc |-> IF r THEN 0 ELSE 1]
-  ELSE \* dict site: s.op in {"deq","dle","dge"} = child operation on key s.k
-     LET co == CASE o = "deq" -> "eq" [] o = "dle" -> "le" [] o = "dge" -> "ge"
+  ELSE \* dict site: s.op in {"deq","dle","dge"} = child operation on key s.k; "dget" = snapshot[s.k] is only
+       \* accessed: the child exists (kind "u", undecided) but is not used in an operation
+     LET co == CASE o = "deq" -> "eq" [] o = "dle" -> "le" [] o = "dge" -> "ge" [] o = "dget" -> "u"
          known == HasKey(st.new, s.k)
+         cck == IF known THEN st.new[IdxOfKey(st.new, s.k)].ck ELSE "u"
          cod == od /\ HasKey(src.e, s.k)                  \* the child has an old value
          cov == IF cod THEN src.e[IdxOfKey(src.e, s.k)].v ELSE 0
          m1 == IF ~od /\ ~known THEN 1 ELSE 0             \* parent is missing (counted at child creation)
-     IN IF known /\ st.new[IdxOfKey(st.new, s.k)].ck # co
+     IN IF o = "dget"
+        THEN [st |-> [kind |-> "dict", ev |-> TRUE,
+                      new |-> IF known THEN st.new ELSE Append(st.new, [k |-> s.k, v |-> 0, ck |-> "u"])],
+              res |-> "-", miss |-> m1, inc |-> 0]
+        ELSE IF cck \notin {co, "u"}
         THEN [st |-> st, res |-> "TE", miss |-> 0, inc |-> 0]
         ELSE
-          LET q == ScalarStep(co, U, cod, cov, known, IF known THEN st.new[IdxOfKey(st.new, s.k)].v ELSE 0, s.x)
+          LET hasn == known /\ cck # "u"
+              q == ScalarStep(co, U, cod, cov, hasn, IF hasn THEN st.new[IdxOfKey(st.new, s.k)].v ELSE 0, s.x)
               ent == [k |-> s.k, v |-> q.nv, ck |-> co]
               n == IF known THEN [st.new EXCEPT ![IdxOfKey(st.new, s.k)] = ent] ELSE Append(st.new, ent)
           IN [st |-> [kind |-> "dict", new |-> n, ev |-> TRUE], res |-> B2S(q.out),
@@ -150,7 +157,8 @@ Step(src, st, U, s) ==
 (* Pending categories of a site at session end                             *)
 (***************************************************************************)
 ScalarPending(o, olde, nv) ==
-  IF o = "eq" THEN (IF olde.v # nv THEN {"fix"} ELSE IF ~olde.canon THEN {"update"} ELSE {})
+  IF o = "u" THEN (IF ~olde.canon THEN {"update"} ELSE {})       \* accessed, never operated: only the representation
+  ELSE IF o = "eq" THEN (IF olde.v # nv THEN {"fix"} ELSE IF ~olde.canon THEN {"update"} ELSE {})
   ELSE IF ~Better(o, olde.v, nv) THEN {"fix"}
   ELSE IF ~Better(o, nv, olde.v) THEN {"trim"}
   ELSE IF ~olde.canon THEN {"update"} ELSE {}
@@ -170,7 +178,7 @@ Pending(src, st) ==
          \cup (IF \E j \in DOMAIN nv : nv[j] \notin Rng(ov) THEN {"fix"} ELSE {})
     [] st.kind = "dict" ->
          (IF \E j \in DOMAIN src.e : ~HasKey(st.new, src.e[j].k) THEN {"trim"} ELSE {})
-         \cup (IF \E j \in DOMAIN st.new : ~HasKey(src.e, st.new[j].k) THEN {"create"} ELSE {})
+         \cup (IF \E j \in DOMAIN st.new : ~HasKey(src.e, st.new[j].k) /\ st.new[j].ck # "u" THEN {"create"} ELSE {})
          \cup UNION {ScalarPending(st.new[IdxOfKey(st.new, src.e[j].k)].ck, src.e[j],
                                    st.new[IdxOfKey(st.new, src.e[j].k)].v)
                        : j \in {i \in DOMAIN src.e : HasKey(st.new, src.e[i].k)}}
@@ -185,7 +193,7 @@ NewSrc(src, st, A) ==
   ELSE IF st.kind = "undecided" THEN
       (IF src.def /\ "update" \in A THEN Some(CanonE(src.e)) ELSE src)
   ELSE IF st.kind \in ScalarOps \cup {"in"} /\ st.new = <<>> THEN src
-  ELSE IF ~src.def THEN (IF "create" \in A THEN Some(CanonE(st.new)) ELSE src)
+  ELSE IF ~src.def THEN (IF "create" \in A THEN Some(CanonE(SelectSeq(st.new, LAMBDA c : c.ck # "u"))) ELSE src)
   ELSE CASE st.kind \in ScalarOps -> IF Pending(src, st) \cap A # {} THEN Some(CanonE(st.new)) ELSE src
     [] st.kind = "in" ->
          LET nv == ValsOf(st.new) ov == ValsOf(src.e)
@@ -202,9 +210,9 @@ NewSrc(src, st, A) ==
              ch(e) == IF ~HasKey(st.new, e.k) THEN e
                       ELSE LET c == st.new[IdxOfKey(st.new, e.k)] IN
                            IF ScalarPending(c.ck, e, c.v) \cap A # {}
-                           THEN [k |-> e.k, v |-> c.v, canon |-> TRUE] ELSE e
+                           THEN [k |-> e.k, v |-> IF c.ck = "u" THEN e.v ELSE c.v, canon |-> TRUE] ELSE e
              upd == [j \in DOMAIN kept |-> ch(kept[j])]
-             isnew(e) == ~HasKey(src.e, e.k)
+             isnew(e) == ~HasKey(src.e, e.k) /\ e.ck # "u"
              add == IF "create" \in A THEN SelectSeq(st.new, isnew) ELSE <<>>
          IN Some(upd \o CanonE(add))
 
